@@ -13,6 +13,7 @@
   FAT histories (no FAT mirror in this file; C01's model).
 -/
 import DiskfsModel.Proofs.Repro
+import DiskfsModel.Proofs.MbrRewrite
 import DiskfsModel.Generated.Repro
 import DiskfsModel.Generated.Detect
 set_option linter.unusedSimpArgs false
@@ -87,6 +88,55 @@ theorem create_blank_two_starts (is16 : Bool) (L : Layout) (serial : Nat) (label
     applyWrs (fun _ => 0) (shift s2 (createWrs1x is16 L serial label fat rootDir)) (s2 + i) := by
   rw [applyWrs_shift, applyWrs_shift]
 
+/-! ### the WHOLE image Create writes — FAT12, FAT16 and FAT32 — as a function of (size, label, epoch)
+
+  `createImage` (Model/Repro.lean) is every WriteAt of Create in reproducible mode with its full data: boot sector
+  (FAT32: backup, FSInfo, FSInfo backup), both FAT copies from the fresh table, the zeroed root directory, then
+  SetLabel: boot sector(s) with the label and the root directory holding the volume-label entry whose five date /
+  time words are the packing of SOURCE_DATE_EPOCH.  Its arguments are the size, the label and the epoch: neither
+  the wall clock nor the start offset nor the prior device content is one.  The run compares the CRC32 of every
+  real WriteAt of fat12/fat16/fat32.Create, in both child processes, with this function (op repro.image). -/
+
+/-- start offset: the volume bytes after Create at `start` are the image applied to the volume's own prior content -/
+theorem create_whole_image_start_independent (P : Detect.Params) (k : FatKind) (size : Nat) (label : List Nat) (epoch : Nat)
+    (img : List Wr) (_h : createImage P k size label epoch = some img) (d : Dev) (start i : Nat) :
+    applyWrs d (shift start img) (start + i) = applyWrs (fun j => d (start + j)) img i :=
+  applyWrs_shift d start img i
+
+/-- two blank devices, two different starts: every byte of the volume agrees (FAT32 included) -/
+theorem create_whole_image_blank_two_starts (P : Detect.Params) (k : FatKind) (size : Nat) (label : List Nat) (epoch : Nat)
+    (img : List Wr) (_h : createImage P k size label epoch = some img) (s1 s2 i : Nat) :
+    applyWrs (fun _ => 0) (shift s1 img) (s1 + i) = applyWrs (fun _ => 0) (shift s2 img) (s2 + i) := by
+  rw [applyWrs_shift, applyWrs_shift]
+
+/-- two runs over DIFFERENT prior device contents at different starts: every volume byte Create writes agrees -/
+theorem create_whole_image_two_runs (P : Detect.Params) (k : FatKind) (size : Nat) (label : List Nat) (epoch : Nat)
+    (img : List Wr) (_h : createImage P k size label epoch = some img) (d1 d2 : Dev) (s1 s2 i : Nat) (hc : Covered img i) :
+    applyWrs d1 (shift s1 img) (s1 + i) = applyWrs d2 (shift s2 img) (s2 + i) :=
+  image_two_runs img d1 d2 s1 s2 i hc
+
+/-- …and for FAT32 that is: the boot sector, the FSInfo sector, their backups in sectors 6 and 7, both FATs and
+    the root directory cluster -/
+theorem create32_covers (P : Detect.Params) (size : Nat) (label : List Nat) (epoch : Nat) (img : List Wr)
+    (h : createImage P .f32 size label epoch = some img) :
+    ∃ L, layout32 P size 512 = some L ∧
+      ∀ i, (i < 2 * L.bps ∨ (6 * L.bps ≤ i ∧ i < 8 * L.bps) ∨
+            (32 * L.bps ≤ i ∧ i < 32 * L.bps + 2 * (L.spf * L.bps) + L.spc * L.bps)) → Covered img i :=
+  createImage32_covers P size label epoch img h
+
+/-- …and for FAT12 / FAT16: the boot sector, both FATs and the whole fixed root directory -/
+theorem create1x_covers (P : Detect.Params) (is16 : Bool) (size : Nat) (label : List Nat) (epoch : Nat) (img : List Wr)
+    (h : createImage P (if is16 then .f16 else .f12) size label epoch = some img) :
+    ∃ L, (if is16 then layout16 P size else layout12 P size) = some L ∧
+      ∀ i, (i < 512 ∨ (L.reserved * 512 ≤ i ∧ i < L.reserved * 512 + 2 * (L.spf * 512) + L.rootEnts * 32)) → Covered img i :=
+  createImage1x_covers P is16 size label epoch img h
+
+/-- clock: the image of an odd epoch is the image of the even second before it, and nothing finer than the epoch
+    enters (FAT's two-second resolution; `odd_second_same_words` lifted to the whole image) -/
+theorem create_whole_image_odd_epoch (P : Detect.Params) (k : FatKind) (size : Nat) (label : List Nat) (e : Nat)
+    (he : e % 2 = 0) : createImage P k size label (e + 1) = createImage P k size label e :=
+  createImage_epoch_congr P k size label (e + 1) e (labelEntry_odd label e (odd_second_same_words e he))
+
 /-! ### MBR: write (read img) changes nothing -/
 
 /-- for every device content on which mbr.Read succeeds, writing the table that was read leaves every
@@ -114,12 +164,37 @@ theorem mbr_write_idempotent (d : Dev) (t : MbrTable) (h : mbrRead d = some t) (
     · cases h
   · cases h
 
+/-- the same at the Table level of the model the C02 / C15 checks tie to the code (Model/MbrTable.lean: mbr.Read stamps
+    the caller's sector sizes, Table.Write refuses more than four partitions): for ANY device content mbr.Read accepts,
+    with any sector sizes, the Write of the table just read is accepted and changes no byte of the device (op
+    repro.mbrrw compares the real rewrite's WriteAt with the model's on the sector of every generated table) -/
+theorem mbr_table_rewrite_idempotent (d : Dev) (devSize : Nat) (lbs pbs : Int) (t : Mbr.Table)
+    (h : (Mbr.readT d devSize lbs pbs).1 = .ok t) : ∃ ws, Mbr.writeT t = some ws ∧ applyWrs d ws = d :=
+  Mbr.readT_rewrite_noop d devSize lbs pbs t h
+
 /-- writing the same table twice gives the same bytes (the encoder is a function of the table) -/
 theorem mbr_write_twice (d : Dev) (t : MbrTable) (i : Nat) :
     applyWrs (applyWrs d t.write) t.write i = applyWrs d t.write i := by
   simp only [MbrTable.write, applyWrs, List.foldl_cons, List.foldl_nil]
   unfold applyWr
   split <;> rfl
+
+/-! ### tables: the bytes a Write leaves are a function of the table alone -/
+
+/-- GPT: `Gpt.write` takes (behaviour switches, CRC function, table incl. every GUID, disk size) and nothing else — no
+    clock, no random source, no prior device content.  Hence: on two devices with ANY prior contents the bytes of every
+    region Table.Write writes (protective MBR, both headers, both entry arrays) agree, and writing the same table a
+    second time changes nothing (the model is tied to the real Table.Write by op gpt.write of the C02 check; here the
+    real code is exercised by the two-process differential) -/
+theorem gpt_write_image_function (c : Gpt.Cfg) (crc : Bytes → Nat) (t : Gpt.Table) (size : Nat) (ws : List Wr) (t' : Gpt.Table)
+    (_h : Gpt.write c crc t size = .ok (ws, t')) (d1 d2 : Dev) :
+    (∀ i, Covered ws i → applyWrs d1 ws i = applyWrs d2 ws i) ∧ applyWrs (applyWrs d1 ws) ws = applyWrs d1 ws :=
+  ⟨fun i hc => applyWrs_two_devices ws d1 d2 i hc, applyWrs_twice d1 ws⟩
+
+/-- MBR at the Table level and the Create images alike: any accepted write list applied twice equals once -/
+theorem mbr_table_write_twice (t : Mbr.Table) (ws : List Wr) (_h : Mbr.writeT t = some ws) (d : Dev) :
+    applyWrs (applyWrs d ws) ws = applyWrs d ws :=
+  applyWrs_twice d ws
 
 /-! ### regenerated facts -/
 
